@@ -1,5 +1,6 @@
 import MsqModel.Analyze.Tables
 import MsqModel.Analyze.Columns
+import MsqModel.Analyze.Lineage
 import MsqModel.Parse.Entry
 import MsqModel.Driver.ShowVal
 /-!
@@ -11,6 +12,10 @@ Driver commands of the analyzer models (C14–C16):
 * `AN columns <all|select|join|where|group|having|order|hash> <dialect> <hex text>` — the same statement handed to
   `CurrentUsedQuoteColumn` / `Current<Clause>ClauseUsedQuoteColumn` (answer `OK L[QuoteColumn{…},…]`) or to
   `CurrentColumnSelectToDirectQuoteHash` (answer: the dict as a list of `T[StandardColumn{…},L[QuoteColumn{…},…]]` in insertion order).
+* `AN lineage <dialect> <hex catalogue> <hex text>` — the catalogue is a list of `CREATE TABLE` statements separated by `;`,
+  served by a `CreateTableStatementGetter` subclass from a dict keyed by `schema.table` / `table`; the first statement of the
+  text goes to `TableLineageAnalyzer.get_select_table_lineage` (a SELECT) or `get_insert_table_lineage` (INSERT … SELECT);
+  answer `OK <all_columns()> ASKED L[names the getter was asked for]`.
 -/
 namespace Drv
 
@@ -46,7 +51,46 @@ def anColumns (kind : String) (d : Gen.D) (text : List Char) : String :=
       | none => "BADREQ kind"
       | some c => showAn ((AN.currentColsStmt c s).map fun l => l.map AN.QCol.toVal)
 
+/-- `SQLParser.parse_create_table_statement(text)` (default dialect, no `close()`) -/
+def parseCreate (piece : List Char) : Except Err Ast.CreateTable :=
+  match Lex.lex Gen.cfgS (PM.dialectPre .DEFAULT piece) with
+  | .error e => .error e
+  | .ok ts => match PM.pCreateTable .DEFAULT (PM.fuelFor ts) ts with
+    | .ok (.createTable c, _) => .ok c
+    | .ok _ => .error (.unmodelled "not a plain CREATE TABLE")
+    | .error e => .error e
+
+def parseCatalogue (text : String) : Except Err LN.Cat :=
+  ((text.splitOn ";").filter (fun p => !(p.trimAscii.isEmpty))).mapM fun piece => do
+    let c ← parseCreate piece.toList
+    pure (LN.StdTable.source (c.table.schema, c.table.name), c)
+
+def showAsked (st : LN.St) : String := " ASKED " ++ showVal (.list (st.asked.map .str))
+
+def anLineage (d : Gen.D) (cat : String) (text : List Char) : String :=
+  match parseCatalogue cat with
+  | .error _ => "BADREQ catalogue"
+  | .ok cat =>
+    match firstStmt d text with
+    | .error e => e.show
+    | .ok (.select q) =>
+      (match LN.selectLineage cat (LN.fuelFor q) q {} with
+       | .ok (lin, st) =>
+         "OK " ++ showVal (.list (lin.allColumns.map fun (c, s) =>
+            .tuple [Val.ofOpt AN.SCol.toVal c, Val.ofOpt (fun l => .list (l.map LN.SrcCol.toVal)) s])) ++ showAsked st
+       | .error e => e.show)
+    | .ok (.insertSelect h q) =>
+      (match LN.insertLineage cat h q {} with
+       | .ok (data, st) =>
+         "OK " ++ showVal (.list (data.map fun (dn, ups) => .tuple [dn.toVal, .list (ups.map LN.SrcCol.toVal)])) ++ showAsked st
+       | .error e => e.show)
+    | .ok _ => "BADREQ statement"
+
 def cmdAnalyze : List String → Option String
+  | ["AN", "lineage", dn, hc, h] =>
+    some (match Gen.D.ofName? dn with
+      | none => "BADREQ dialect"
+      | some d => anLineage d (unhexS hc) (unhex h))
   | ["AN", "columns", kind, dn, h] =>
     some (match Gen.D.ofName? dn with
       | none => "BADREQ dialect"
